@@ -91,8 +91,11 @@ class DistributeMapper(IdentityMapper):
                 else:
                     rest = 1
 
+                # Distribute the leading factors too: *rest* (already
+                # distributed) may be a sum, or a product containing one.
                 result = self.collect(pymbolic.flattened_sum([
-                       pymbolic.flattened_product(leading) * dist(sumchild*rest)
+                       dist(pymbolic.flattened_product(
+                           [*leading, sumchild, rest]))
                        for sumchild in sum.children
                        ]))
                 return result
